@@ -11,6 +11,9 @@ TOKENS = [b'a', b'b.txt', b'/', b'.', b'..', b'%2e%2e', b'%2f', b'?x', b'?../', 
 FILES_IN = {'a/b.txt': b'INSIDE-a-b ' + b'x' * 40, 'b.txt': b'INSIDE-b', 'a/a': b'INSIDE-a-a',
             'big.bin': b'INSIDE-big ' + bytes(range(256)) * 8,
             # sizes around --min-compression-length 20, and an empty file
+            # names with an "encoding" suffix: what is served is still the file, byte for byte
+            'z.gz': b'INSIDE-z-gz-not-really-gzip ' + b'z' * 30, 'z.tgz': b'INSIDE-z-tgz ' + b'q' * 40, 'z.bz2': b'INSIDE-z-bz2',
+            'z.txt.xz': b'INSIDE-z-xz ' + b'x' * 25, 'z.svgz': b'INSIDE-z-svgz ' + b's' * 25, 'z.br': b'INSIDE-z-br ' + b'b' * 25,
             'e.txt': b'', 't19.txt': b'INSIDE-19-' + b'y' * 9, 't20.txt': b'INSIDE-20-' + b'y' * 10, 't21.txt': b'INSIDE-21-' + b'y' * 11}
 FILES_OUT = {'secret.txt': b'OUTSIDE-SECRET-SENTINEL ' + b's' * 40, 'root-evil/b.txt': b'OUTSIDE-EVIL-SENTINEL',
              'a': b'OUTSIDE-A-SENTINEL', 'b.txt': b'OUTSIDE-B-SENTINEL'}
@@ -96,7 +99,7 @@ class Lazy:
         for p in (b'/../secret.txt', b'/a/../../secret.txt', b'/./../secret.txt', b'/a/b.txt/../../../secret.txt',
                   b'/../root-evil/b.txt', b'/..%2fsecret.txt', b'/%2e%2e/secret.txt', b'/..;/secret.txt',
                   b'/a/../b.txt', b'/a/./b.txt', b'/a//b.txt', b'/b.txt?../secret.txt', b'/../root/b.txt',
-                  b'/big.bin', b'/a/b.txt', b'/a/a', b'/e.txt', b'/t19.txt', b'/t20.txt', b'/t21.txt', b'/e.txt?x', b'/a/../t20.txt', b'/..', b'/../a', b'/../b.txt', b'/a/../../a', b'/a/../../b.txt',
+                  b'/big.bin', b'/a/b.txt', b'/a/a', b'/z.gz', b'/z.tgz', b'/z.bz2', b'/z.txt.xz', b'/z.svgz', b'/z.br', b'/e.txt', b'/t19.txt', b'/t20.txt', b'/t21.txt', b'/e.txt?x', b'/a/../t20.txt', b'/..', b'/../a', b'/../b.txt', b'/a/../../a', b'/a/../../b.txt',
                   # a query whose text walks back into the root by name must not whitewash the path before it
                   b'/../secret.txt?/../root', b'/../secret.txt?/../root/b.txt', b'/a/../../secret.txt?x/../root/a',
                   b'/../root-evil/b.txt?/../../root', b'/../secret.txt?../root', b'/../b.txt?/../root/a/b.txt',
@@ -149,11 +152,18 @@ def check(w):
     body = None
     if r and r['ok']:
         body = r['body']
-        if any(n.lower() == b'content-encoding' and v == b'gzip' for n, v in r['headers']):
+        for enc in [v.strip().lower() for n, v in r['headers'] if n.lower() == b'content-encoding']:
+            import bz2
+            import lzma
+            undo = {b'gzip': gzip.decompress, b'x-gzip': gzip.decompress, b'bzip2': bz2.decompress, b'xz': lzma.decompress,
+                    b'identity': (lambda b: b)}.get(enc)
             try:
-                body = gzip.decompress(body)
+                if undo is None:
+                    raise ValueError('no decoder for advertised content-encoding %r' % enc)
+                body = undo(body)
             except Exception:   # noqa
-                out.append({'symptom': 'advertised_gzip_does_not_decode', 'features': {}, 'detail': detail})
+                out.append({'symptom': 'advertised_gzip_does_not_decode' if enc == b'gzip' else 'advertised_content_encoding_cannot_be_undone',
+                            'features': {}, 'detail': dict(detail, encoding=enc)})
     blob = rx + (body or b'')
     for s in SENTINELS:
         if s in blob:
